@@ -327,7 +327,8 @@ def execute(case):
         frontier = nxt
         if not frontier:
             break
-    return {'states': len(seen), 'transitions': transitions, 'checks': ncmp, 'nontrivial': nontrivial > 0,
+    return {'states': len(seen), 'transitions': transitions, 'traces': transitions, 'checks': ncmp,
+            'nontrivial': nontrivial > 0,
             'key': [f"{kind}|{with_sens}|{prefix}|{i}" for i in range(nontrivial)],
             'outcome': f"states={len(seen)}", 'violations': V}
 
